@@ -5,7 +5,7 @@ SPEC = {
     'variants': ['', 't32'],
     'lean_modules': ['N2k.Props.Consts.C12', 'N2k.Props.C12'], 'props_files': ['N2k/Props/Consts/C12.lean', 'N2k/Props/C12.lean'],
     'translators': ['constants', 'pgn_tables'],
-    'case_start': ['scenario', 'devlist'],
+    'case_start': ['scenario', 'devlist', 'probe'],
     'oracle_prefixes': ['C12:'],
     'trusted_base': ["model N2k/Model/Heartbeat.lean transcribes tN2kSyncScheduler (N2kTimer.h), SetHeartbeatIntervalAndOffset, "
                      "SendHeartbeat(bool), SendHeartbeat(int), SetN2kPGN126993 and the heartbeat defaults of Open() by hand, on top of the "
